@@ -9,6 +9,7 @@ import numpy as np
 
 from vp import probe, specmodel as sm
 from vp import defaults
+from vp import reuse
 
 RULE = ('seeded generator: nanometre spectra with 2..40 samples on uniform and non-uniform grids, integration bounds at and '
         'between samples, bin-centre sets of any spacing (trapz) or uniform (simps), both end treatments, with/without '
@@ -167,6 +168,7 @@ def rgrid(rng, n, uniform):
 
 def workload(ctx, lentil):
     defaults.run(ctx, lentil, 'C15', 'integrate:linear')
+    reuse.run(ctx, lentil, 'C15', 'integrate:linear')
     rng = ctx.rng
     S = lentil.radiometry.Spectrum
     n = ctx.count(140, 1000)
